@@ -158,7 +158,9 @@ def chain_events(ctx, lc, tid, start, nmoves, seed):
     for step in range(nmoves):
         move = rng.choice(MOVES + ["full_shuffle", "swapRandChargeRes", "swapRes"])
         N = len(obj.seq)
-        frozen = sorted(rng.sample(range(N), rng.choice([0, 0, 1, 2, min(N, 5)]))) if N > 1 else []
+        frozen = sorted(rng.sample(range(N), rng.choice([0, 0, 1, 2, min(N, 5), max(0, N - 4), (2 * N) // 3, N // 2]))) if N > 1 else []
+        if rng.random() < 0.15 and N > 6:
+            frozen = sorted(set(range(0, (3 * N) // 4)) | {N - 2})          # a long frozen prefix, a few free sites at high indices
         pseq, pcp = obj.seq, cp_of(obj)
         rec.take()
         args = [rng.randrange(N), rng.randrange(N)] if move == "swapRes" else None
@@ -276,7 +278,8 @@ def run(ctx):
     # (V)
     trs = []
     # short, fully or nearly fully charged peptides first: the class where an arrangement's delta can exceed the heuristic delta-max
-    starts = ["ESRDEKER", "EKEEEEKEEEEEKK", "KEEEEK", "KKEEEEK", "DRKKGSE", "EEKKKGKE", "KEEEKEK", "RDDDDDRG"] + \
+    starts = ["ESRDEKER", "EKEEEEKEEEEEKK", "KEEEEK", "KKEEEEK", "DRKKGSE", "EEKKKGKE", "KEEEKEK", "RDDDDDRG", "KKKKEEEE", "EEEEKKKK",
+              "KKKKKKKKKKKKE", "GSGSGSGS", "G"] + \
         common.random_sequences(ctx.rng, ctx.pick(24, 150), ctx.pick(40, 60), 4)
     for i, s in enumerate(starts):
         trs.append(chain_events(ctx, lc, len(trs) + 1, s, ctx.pick(12, 20), ctx.seed * 1000 + i))
